@@ -9,13 +9,14 @@ KIND_PROP = {
     'panic': 'C08', 'check': 'C08', 'consistency': 'C08', 'not_idempotent': 'C08', 'foreign_slot': 'C08',
     'readd_alloc': 'C09', 'readd_neq': 'C09', 'lookup_none': 'C09', 'lookup_neq': 'C09', 'handle_slots': 'C09', 'ret_slots': 'C09', 'new_handle_slots': 'C09',
     'eq_lost': 'C13', 'slots_grew': 'C13', 'progress_direction': 'C13',
-    'data_wrong': 'C14', 'data_not_fixpoint': 'C14', 'analysis_panic': 'C14', 'const_not_propagated': 'C14', 'const_unsound': 'C14', 'analysis_check': 'C14',
+    'data_wrong': 'C14', 'data_not_fixpoint': 'C14', 'analysis_panic': 'C14', 'data_stale_handle': 'C14', 'const_not_propagated': 'C14', 'const_unsound': 'C14', 'analysis_check': 'C14',
     'count_mismatch': 'C10',
     'rw_missing_eq': 'C04', 'probe_missing': 'C04', 'rw_unsound_eq': 'C05', 'unbound_var': 'C05', 'match_not_represented': 'C05', 'match_mutated': 'C05',
     'mm_unbound_var': 'C05', 'mm_equation_fails': 'C05', 'mm_mutated': 'C05',
     'false_but_changed': 'C15', 'false_but_new': 'C15',
     'model_members_disagree': 'C03', 'model_redundant_slot_matters': 'C03', 'model_term_changed': 'C03', 'model_ill_scoped': 'C03', 'model_handle_ill_scoped': 'C03',
     'model_no_wellfounded_node': 'C03', 'model_node_not_evaluated': 'C03', 'model_panic': 'C03',
+    'explain_panic': 'C07', 'proof_bad_step': 'C07', 'proof_bad_leaf': 'C07', 'proof_wrong_conclusion': 'C07', 'proof_checker_error': 'C07',
     'extract_panic': 'C06', 'extract_not_member': 'C06', 'extract_cost_mismatch': 'C06', 'extract_not_cheapest': 'C06', 'extract_foreign_slot': 'C06',
 }
 
@@ -212,6 +213,11 @@ def judge_record(tmpl, rec):
                 return res
             bad = [n for n in free_of(xt['term']) if n != 'fresh' and n not in fn]
             if bad: out.append(('extract_foreign_slot', k, bad))
+        # explanations: the dumped proof DAG is re-checked node by node on terms (mirsmt/proofcheck.py)
+        xp = st.get('explain')
+        if xp:
+            from . import proofcheck as PC
+            for kind, detail in PC.check_proof(xp, explain_query(tmpl, pat, k), asserted_equations(tmpl, pat, k)): out.append((kind, k, detail))
         # saturation flag
         if st.get('rewrite_ret') is False and prev is not None:
             pn = len(prev['canon'])
@@ -249,6 +255,8 @@ def judge_record(tmpl, rec):
                 d = cl.get('data'); want = want_all.get(C.cls(hts[i]))
                 if d == 'none': d = None
                 if d != want: out.append(('data_wrong', k, [i, d, want]))
+                hd = st['canon'][i].get('hdata', d)
+                if (None if hd == 'none' else hd) != d: out.append(('data_stale_handle', k, [i, hd, d]))
                 if cl.get('data_fix') is not None and (None if cl.get('data_fix') == 'none' else cl.get('data_fix')) != d: out.append(('data_not_fixpoint', k, [i, d, cl.get('data_fix')]))
         # monotonicity against the previous step
         if prev is not None:
@@ -264,6 +272,7 @@ def judge_record(tmpl, rec):
         p = rec['panic']
         failing = tmpl.ops[len(steps) - 1] if 0 < len(steps) <= len(tmpl.ops) else None
         if failing is not None and failing[0] == 'extract': out.append(('extract_panic', len(steps), (p['msg'] if isinstance(p, dict) else p)))
+        if failing is not None and failing[0] == 'explain': out.append(('explain_panic', len(steps), (p['msg'] if isinstance(p, dict) else p)))
         out.append(('panic', len(steps), (p['msg'] if isinstance(p, dict) else p)))
     if tmpl.analysis != '()':
         # with an analysis attached the history is C14's: a panic, a failed consistency check, and (for constant folding, whose modify hook changes
@@ -274,6 +283,17 @@ def judge_record(tmpl, rec):
                           'unsound_eq': 'const_unsound', 'class_merged': 'const_unsound', 'slot_dropped': 'const_unsound'})
         out = out + [(remap[k], s_, d) for k, s_, d in out if k in remap]
     return out
+
+def label_term(t, pat):
+    """template term -> term over the slot labels used in records (index of the first name of the coincidence block)"""
+    op = t[0]; out = [op]
+    for kind, a in zip(O.SIG[op], t[1:]):
+        out.append(str(_first_name_of_block(pat, pat[a])) if kind in 'sb' else (a if kind == 'p' else label_term(a, pat)))
+    return tuple(out)
+def explain_query(tmpl, pat, k):
+    op = tmpl.ops[k - 1]; return (label_term(tuple_term(op[1]), pat), label_term(tuple_term(op[2]), pat))
+def asserted_equations(tmpl, pat, k):
+    return [(label_term(tuple_term(op[1]), pat), label_term(tuple_term(op[2]), pat), op[3] if len(op) > 3 else None) for op in tmpl.ops[:k] if op[0] == 'union']
 
 def progress_ok(a, b):
     """documented direction: classes allocated never decrease; with that fixed, live classes never increase;
